@@ -7,6 +7,7 @@ must differ)."""
 from __future__ import annotations
 
 import collections.abc as cabc
+import enum
 import typing
 from dataclasses import dataclass
 from decimal import Decimal
@@ -47,8 +48,20 @@ class G2(Generic[T, B]):
     y: B
 
 
+class CE(str, enum.Enum):
+    A = "a"
+    B2 = "b"
+
+
+class IE1(enum.IntEnum):
+    ONE = 1
+    ZERO = 0
+
+
 LEAVES = [int, str, bool, float, bytes, Decimal, None]
-LITERALS = [0, 1, False, True, "a", "b", 2, b"x", None, "1", "True", "None"]   # "1" / 1: str() of the two is the same text (defect #53)
+# "1" / 1: str() of the two is the same text (defect #53); CE.A == "a" and IE1.ONE == 1 == True: members of enums with a mixed-in data
+# type EQUAL the plain value and hash like it, only the type tells them apart (seeded change: literal equality typed for bool only)
+LITERALS = [0, 1, False, True, "a", "b", 2, b"x", None, "1", "True", "None", CE.A, IE1.ONE, IE1.ZERO]
 
 # kind -> (arity, [spellings: callable(args) -> hint], bare spellings, implicit args)
 GENERICS = {
